@@ -145,7 +145,36 @@ func (x *Exec) heapRead(st *State, k any, base, idx Term) Term {
 	return Select(Select(x.heap(st, k), base), idx)
 }
 
+// freshWrite: a function under contract option writes=fresh may write only
+// to objects that were not allocated when it was entered (and its own local
+// cells); callers then keep everything they knew about existing memory.
+func (x *Exec) freshWrite(st *State, base Term, what string, unless ...Term) {
+	if x.topC == nil || x.topC.Opts["writes"] != "fresh" || x.topEntryAlloc.S == "" {
+		return
+	}
+	fr := x.curFrame
+	name := x.fname(fr) + ":fresh-write:" + what
+	if fr != nil && x.curPos.IsValid() {
+		name = x.oblName(fr, "fresh-write", x.curPos)
+	} else {
+		x.oblCount[name]++
+		if n := x.oblCount[name]; n > 1 {
+			name = fmt.Sprintf("%s#%d", name, n)
+		}
+	}
+	var props []string
+	if fr != nil {
+		props = fnProps(fr)
+	}
+	goal := Not(Select(x.topEntryAlloc, base))
+	if len(unless) > 0 {
+		goal = Or(append([]Term{goal}, unless...)...)
+	}
+	x.check(st, "frame", name, goal, props, "writes=fresh: "+what+" targets an object allocated after entry", x.pos(x.curPos))
+}
+
 func (x *Exec) heapWrite(st *State, k any, base, idx, v Term) {
+	x.freshWrite(st, base, "store")
 	h := x.heap(st, k)
 	x.setHeap(st, k, Store(h, base, Store(Select(h, base), idx, v)))
 }
